@@ -42,8 +42,8 @@ package main
 //@   loop 2 invariant len(args) >= 1 && a.help == nil && (cap(rest) == 0 || (isnew(rest) && arr(rest) != arr(args))) && len(rest) == prev(len(rest)) && arr(rest) == prev(arr(rest)) && (forall i int :: 0 <= i && i < len(rest) ==> rest[i] == prev(rest[i]))
 //@   loop 2 invariant cap(oneLetterFlags) == 0 || (isnew(oneLetterFlags) && arr(oneLetterFlags) != arr(rest))
 //@   loop 2 invariant (prev(a.disasm) ==> a.disasm) && (prev(a.trace) ==> a.trace) && (prev(a.result) ==> a.result) && (prev(a.stats) ==> a.stats) && (prev(a.bdump) ==> a.bdump) && (prev(a.bload) ==> a.bload)
-//@   loop 1 step [C18] positional_arguments_are_kept: len(rest) >= prev(len(rest)) && (forall i int :: 0 <= i && i < prev(len(rest)) ==> rest[i] == prev(rest[i]))
-//@   loop 1 step [C18] flags_are_only_switched_on: (prev(a.disasm) ==> a.disasm) && (prev(a.trace) ==> a.trace) && (prev(a.result) ==> a.result) && (prev(a.stats) ==> a.stats) && (prev(a.bdump) ==> a.bdump) && (prev(a.bload) ==> a.bload)
+//@   loop 1 breakstep [C18] positional_arguments_are_kept: len(rest) >= prev(len(rest)) && (forall i int :: 0 <= i && i < prev(len(rest)) ==> rest[i] == prev(rest[i]))
+//@   loop 1 breakstep [C18] flags_are_only_switched_on: (prev(a.disasm) ==> a.disasm) && (prev(a.trace) ==> a.trace) && (prev(a.result) ==> a.result) && (prev(a.stats) ==> a.stats) && (prev(a.bdump) ==> a.bdump) && (prev(a.bload) ==> a.bload)
 //
 // run: the library does the work; the flags only select what is called.
 //@ func run
